@@ -1,6 +1,7 @@
 (* C02 Version history, metadata lookup, deletion and duplicate-write semantics. Statements only. *)
 Require Import Pearl.Base.Prelude Pearl.Storage.Model Pearl.Storage.Spec Pearl.Storage.Inv
                Pearl.Storage.ReadProofs Pearl.Storage.ReadAllProofs Pearl.Storage.Theorems.
+Require Import Pearl.Filter.Bloom Pearl.Filter.Hier Pearl.Filter.Combined Pearl.Storage.Filtered Pearl.Storage.FilteredProofs.
 
 (* For every state whose indexes describe their blobs (IdxInv: established after every history by
    C02_invariant_after_every_history), any number of contributing blobs, any placement of the records:
@@ -30,7 +31,98 @@ Theorem C02_invariant_after_every_history :
     IdxInv (reach K cfg ops).
 Proof. exact reach_IdxInv. Qed.
 
+(* ---------- the group filters INSIDE the all-versions read path ----------
+   Storage::read_all_with_deletion_marker / read_all do not open every closed blob: they walk
+   `blobs.iter_possible_childs_rev(key)`, the hierarchy of merged (group) filters, exactly as get_latest_entry does.
+   Filtered.v models that: `read_all_dm_filtered K bloom0 h s k` builds the per-blob lists from the active blob and from
+   the closed blobs at the slots the hierarchy `h` yields for the key (newest first), each asked through its own filter,
+   then counts / sorts / cuts as read_all_dm does. `freach K bloom0 cfg group evs` is the storage and its hierarchy after
+   ANY history of storage operations interleaved with offload_buffer calls (group > 0, well-formed initial bloom:
+   C10_bloom0_wf_cases).
+
+   The filters can never hide a version: the filtered lists ARE the filterless lists, hence the specification's.
+   (A skipped blob holds no record of the key and would have contributed the empty list; the count of contributing
+   blobs, the marker presence and the concatenation see only non-empty contributions, whose order the iterator keeps.) *)
+Theorem C02_filtered_read_all_dm :
+  forall (K : N) (bloom0 : option bloom) (cfg : config) (group : nat) (evs : list fev) (k : N),
+    (0 < group)%nat -> bloom0_wf bloom0 ->
+    let s := fst (freach K bloom0 cfg group evs) in
+    let h := snd (freach K bloom0 cfg group evs) in
+    read_all_dm_filtered K bloom0 h s k = read_all_dm s k.
+Proof. exact filtered_read_all_dm_is_read_all_dm. Qed.
+
+Theorem C02_filtered_read_all :
+  forall (K : N) (bloom0 : option bloom) (cfg : config) (group : nat) (evs : list fev) (k : N),
+    (0 < group)%nat -> bloom0_wf bloom0 ->
+    let s := fst (freach K bloom0 cfg group evs) in
+    let h := snd (freach K bloom0 cfg group evs) in
+    read_all_filtered K bloom0 h s k = read_all s k.
+Proof. exact filtered_read_all_is_read_all. Qed.
+
+Theorem C02_filtered_read_all_is_spec :
+  forall (K : N) (bloom0 : option bloom) (cfg : config) (group : nat) (evs : list fev) (k : N),
+    (0 < group)%nat -> bloom0_wf bloom0 ->
+    let s := fst (freach K bloom0 cfg group evs) in
+    let h := snd (freach K bloom0 cfg group evs) in
+    read_all_dm_filtered K bloom0 h s k = spec_all_dm (abs s) k /\
+    read_all_filtered K bloom0 h s k = spec_all (abs s) k.
+Proof. exact filtered_read_all_is_spec. Qed.
+
+(* The Rust text to the letter: on this path Blob::read_all_entries_with_deletion_marker does NOT ask the blob's own
+   filter (Blob::get_latest_entry(.., check_filters = true) does); the hierarchy iterator is the only filtering
+   (`read_all_dm_iter`). Same result. *)
+Theorem C02_iter_read_all_is_spec :
+  forall (K : N) (bloom0 : option bloom) (cfg : config) (group : nat) (evs : list fev) (k : N),
+    (0 < group)%nat -> bloom0_wf bloom0 ->
+    let s := fst (freach K bloom0 cfg group evs) in
+    let h := snd (freach K bloom0 cfg group evs) in
+    read_all_dm_iter K h s k = spec_all_dm (abs s) k /\ read_all_iter K h s k = spec_all (abs s) k.
+Proof. exact iter_read_all_is_spec. Qed.
+
+(* Non-vacuity, computed. K = 4, 100-bit blooms, group = 2 (node 0 = slots 0,1; node 1 = slot 2).
+     closed blob 0: key 5 @10, deletion marker of key 5 @15        closed blob 1: key 5 @20, key 7 @21, key 5 @22
+     closed blob 2: key 6 @30                                      active blob:   key 5 @40
+   and an offload_buffer(16, 1) before the last write. For key 5 the iterator yields slots 0 and 1 and SKIPS blob 2
+   (node 1 answers NotContains); the path opens slot 1 then slot 0. Four versions come back from three blobs, re-sorted,
+   ending in the marker (blob 0 contributes the marker only: its local cut hides @10); read_all strips the marker.
+   For key 6 only blob 2 is opened, for key 7 only blob 1 (blob 0 is yielded and rejects by its own filter), key 9
+   opens nothing. Filtered, iterator-only and filterless lists coincide, and equal the specification's. *)
+Module FilteredReadAllExample.
+  Definition ex_cfg : config := {| c_dup := true; c_maxrec := 1000; c_maxsize := 1000000 |}.
+  Definition ex_bloom : option bloom := Some (bloom_new 100 2 (repeat 0 40)).
+  Definition ex_evs : list fev :=
+    [EOp (OOpen false); EOp (OWrite 5 10 None 0 5 1); EOp (ODelete 5 15 None 0 true); EOp OCloseActive;
+     EOp (OWrite 5 20 None 0 5 2); EOp (OWrite 7 21 None 0 5 1); EOp (OWrite 5 22 None 0 5 3); EOp OCloseActive;
+     EOp (OWrite 6 30 None 0 5 1); EOp OCloseActive; EOff (OffN 16 1); EOp (OWrite 5 40 None 0 5 4)].
+  Definition ex_s := fst (freach 4 ex_bloom ex_cfg 2 ex_evs).
+  Definition ex_h := snd (freach 4 ex_bloom ex_cfg 2 ex_evs).
+  Definition ex_keys : list N := [5; 6; 7; 9].
+  Definition show (l : list rec) : list (N * bool) := map (fun r => (r_ts r, r_del r)) l.
+
+  Example C02_filtered_read_all_nonvacuous :
+    occ (s_closed ex_s) = [true; true; true] /\
+    map blob_keys (closed_blobs ex_s) = [[5; 5]; [5; 7; 5]; [6]] /\
+    option_map blob_keys (s_active ex_s) = Some [5] /\
+    map (fun k => (ch_iter 4 ex_h k, consulted_all 4 ex_bloom ex_h ex_s k)) ex_keys =
+      [([0; 1], [1; 0]); ([2], [2]); ([0; 1], [1]); ([], [])]%nat /\
+    map (fun b => show (idx_get_all_dm (b_idx b) 5)) (rev (closed_blobs ex_s)) =
+      [[]; [(22, false); (20, false)]; [(15, true)]] /\
+    map (fun k => read_all_dm_filtered 4 ex_bloom ex_h ex_s k) ex_keys = map (fun k => read_all_dm ex_s k) ex_keys /\
+    map (fun k => read_all_filtered 4 ex_bloom ex_h ex_s k) ex_keys = map (fun k => read_all ex_s k) ex_keys /\
+    map (fun k => read_all_dm_iter 4 ex_h ex_s k) ex_keys = map (fun k => read_all_dm ex_s k) ex_keys /\
+    map (fun k => read_all_dm_filtered 4 ex_bloom ex_h ex_s k) ex_keys = map (fun k => spec_all_dm (abs ex_s) k) ex_keys /\
+    map (fun k => show (read_all_dm_filtered 4 ex_bloom ex_h ex_s k)) ex_keys =
+      [[(40, false); (22, false); (20, false); (15, true)]; [(30, false)]; [(21, false)]; []] /\
+    show (read_all_filtered 4 ex_bloom ex_h ex_s 5) = [(40, false); (22, false); (20, false)].
+  Proof. vm_compute. repeat split. Qed.
+End FilteredReadAllExample.
+
 Print Assumptions C02_read_all_with_deletion_marker.
 Print Assumptions C02_read_all.
 Print Assumptions C02_read_with.
 Print Assumptions C02_invariant_after_every_history.
+Print Assumptions C02_filtered_read_all_dm.
+Print Assumptions C02_filtered_read_all.
+Print Assumptions C02_filtered_read_all_is_spec.
+Print Assumptions C02_iter_read_all_is_spec.
+Print Assumptions FilteredReadAllExample.C02_filtered_read_all_nonvacuous.
